@@ -72,6 +72,14 @@ async def do_step(inv, step, loop, peer=None):
     if op == "multi":
         resp = await inv._read_from_socket(inv._write_multi_command(step[1], bytes.fromhex(step[2])))
         return {"raw": resp.raw_data.hex()}
+    if op == "unitcmd":            # a command object built directly for ANOTHER unit address, run on this inverter's transport
+        P = g.protocol
+        tcp = isinstance(inv._protocol, P.TcpInverterProtocol)
+        kind, unit, reg, val = step[1], step[2], step[3], step[4]
+        cls = {("read", False): P.ModbusRtuReadCommand, ("write", False): P.ModbusRtuWriteCommand, ("multi", False): P.ModbusRtuWriteMultiCommand,
+               ("read", True): P.ModbusTcpReadCommand, ("write", True): P.ModbusTcpWriteCommand, ("multi", True): P.ModbusTcpWriteMultiCommand}[(kind, tcp)]
+        resp = await inv._read_from_socket(cls(unit, reg, bytes.fromhex(val) if kind == "multi" else val))
+        return {"raw": resp.raw_data.hex()}
     if op == "aa55":
         resp = await inv._read_from_socket(g.protocol.Aa55ProtocolCommand(step[1], step[2]))
         return {"raw": resp.raw_data.hex()}
